@@ -19,6 +19,7 @@ import (
 	"encoding/json"
 	"fmt"
 	"math"
+	"sort"
 	"strconv"
 	"strings"
 	"sync"
@@ -80,7 +81,11 @@ func (d *Datastore) Get(ctx context.Context, req *sdcpb.GetDataRequest, nCh chan
 	// convert sdcpb paths to a string list
 	paths := make([][]string, 0, len(req.GetPath()))
 	for _, p := range req.GetPath() {
-		paths = append(paths, utils.ToStrings(p, false, false))
+		sp, err := d.toStringsWildcardKeys(ctx, p)
+		if err != nil {
+			return err
+		}
+		paths = append(paths, sp)
 	}
 
 	ctx, cancel := context.WithCancel(ctx)
@@ -100,6 +105,37 @@ func (d *Datastore) Get(ctx context.Context, req *sdcpb.GetDataRequest, nCh chan
 		return err
 	}
 	return nil
+}
+
+// toStringsWildcardKeys converts the path to the string slice used to address the cache, like utils.ToStrings does.
+// List keys that the path does not specify are filled with the wildcard, such that all the entries match.
+func (d *Datastore) toStringsWildcardKeys(ctx context.Context, p *sdcpb.Path) ([]string, error) {
+	result := make([]string, 0, len(p.GetElem()))
+	for i, pe := range p.GetElem() {
+		result = append(result, pe.GetName())
+		rsp, err := d.schemaClient.GetSchemaSdcpbPath(ctx, &sdcpb.Path{Elem: p.GetElem()[:i+1]})
+		if err != nil {
+			return nil, err
+		}
+		keys := rsp.GetSchema().GetContainer().GetKeys()
+		// a list addressed as a whole by the last path element needs no keys
+		if len(keys) == 0 || (len(pe.GetKey()) == 0 && i == len(p.GetElem())-1) {
+			continue
+		}
+		keyNames := make([]string, 0, len(keys))
+		for _, k := range keys {
+			keyNames = append(keyNames, k.GetName())
+		}
+		sort.Strings(keyNames)
+		for _, k := range keyNames {
+			if v, exists := pe.GetKey()[k]; exists {
+				result = append(result, v)
+				continue
+			}
+			result = append(result, "*")
+		}
+	}
+	return result, nil
 }
 
 func (d *Datastore) handleGetDataUpdatesSTRING(ctx context.Context, name string, req *sdcpb.GetDataRequest, paths [][]string, out chan *sdcpb.GetDataResponse) error {
